@@ -60,6 +60,8 @@ def split(ops, cl, ml):
             cur["script"].append(o)
         if o.startswith(("CMP", "FIX ", "CRASH")):
             cur["verdicts"].append(m)
+        if o.startswith("OBJ "):
+            cur["nobj"] = cur.get("nobj", 0) + 1
         if o.startswith("CRASH"):
             cur["crash"] = True        # also when a modifying call of the history itself aborts before the export
         if o.startswith("KNOWN "):
@@ -105,10 +107,12 @@ def annotate(binp, d, script, env=None):
     out += script
     out.append("# judged lines (protocol line | expected | Lean model):")
     for i, l in enumerate(o):
-        if l.startswith(("CMP", "FIX", "CRASH", "LOADFAIL")) or l.startswith(UNIT):
+        if l.startswith("OBJ ") and i < len(c) and i < len(m) and classify(c[i], m[i]) != "diff":
+            continue
+        if l.startswith(("CMP", "FIX", "CRASH", "LOADFAIL", "OBJ ")) or l.startswith(UNIT):
             ci = c[i] if i < len(c) else "<none>"
             mi = m[i] if i < len(m) else "<none>"
-            out.append("#   %s | %s | %s%s" % (l[:300], ci[:300], mi[:400], "" if classify(ci, mi) != "diff" else "   <== DIFFERS"))
+            out.append("#   %s | %s | %s%s" % (l[:1500], ci[:300], mi[:400], "" if classify(ci, mi) != "diff" else "   <== DIFFERS"))
     if r.returncode != 0:
         out.append("# harness exit %d:\n# %s" % (r.returncode, r.stdout[-2500:].replace("\n", "\n# ")))
     return "\n".join(out) + "\n"
@@ -188,6 +192,9 @@ def run_engine(tier, seed):
             for v in cs["verdicts"]:
                 bump("verdict." + " ".join(v.split()[:2]))
                 njudged += 1
+            if cs.get("nobj"):
+                bump("object-level.start-tags", cs["nobj"])
+                njudged += cs["nobj"]
             if not cs["verdicts"]:
                 bump("not-loaded")
             distinct.add(hashlib.md5("\n".join(cs["script"]).encode()).digest()[:8])
@@ -225,5 +232,6 @@ def run_engine(tier, seed):
                     "names, subtypes, misc objects with markup / control / high bytes, restrict, groups, distances incl. heterogeneous and "
                     "kind 0, memattr values, cpukinds with infos, allow, userdata of lengths 0..9 plain and base64) x export backend x "
                     "import backend x {buffer, file} x {v3, v2}; each yields a CMP verdict (TopoEquiv + canonical lines) and a FIX verdict "
-                    "(second export byte-identical); a unit case = one call of the escaper / attribute scanner / base64 encoder / decoder / "
+                    "(second export byte-identical) and, for v3 nolibxml exports, OBJ verdicts on sampled objects (scanned start tag = exportAttrs of the "
+                    "object, importAttrs of it = the reloaded object); a unit case = one call of the escaper / attribute scanner / base64 encoder / decoder / "
                     "number conversion compared byte for byte with the model; distinct = distinct (script) or (unit call, C result)"}
